@@ -996,3 +996,59 @@ Qed.
 Lemma selection_deterministic_l : forall W ws ws' c c' e,
   nth_error ws c = nth_error ws' c' -> world_call W ws c e = world_call W ws' c' e.
 Proof. intros. unfold world_call. rewrite H. reflexivity. Qed.
+
+(* With a default service (and several services) the first subscript is a
+   port key of THAT service. *)
+Lemma default_service_subscript_is_port_l : forall W o ds s k rest,
+  wf W = true -> loadable W = true -> (2 <= length (w_services W))%nat ->
+  opt_service o = Some ds -> pick s_name (w_services W) ds = Some s ->
+  sat (port_level W o s k rest) (run W o (Item k :: rest)) = true.
+Proof.
+  intros W o ds s k rest Hwf Hl H2 Ho Hp.
+  rewrite <- (select_correct_l W o (Item k :: rest) Hwf) at 1.
+  f_equal. rewrite (route_loadable _ _ _ Hl).
+  assert (Hs : the_service W o = inr s).
+  { unfold the_service. destruct (w_services W) as [|a r] eqn:E; [simpl in H2; lia|].
+    rewrite Ho, Hp. reflexivity. }
+  destruct (two_services _ H2) as [a [b [r E]]]. rewrite E in *. rewrite Ho, Hs. reflexivity.
+Qed.
+
+(* Attribute access uses the default service when set, else the first one;
+   then the default port when set, else the first SOAP port. *)
+Lemma attribute_access_uses_defaults_l : forall W o n rest,
+  wf W = true -> loadable W = true ->
+  match the_service W o with
+  | inr s => sat (attr_level W o s n rest) (run W o (Attr n :: rest)) = true
+  | inl r => sat r (run W o (Attr n :: rest)) = true
+  end.
+Proof.
+  intros W o n rest Hwf Hl.
+  pose proof (select_correct_l W o (Attr n :: rest) Hwf) as H.
+  rewrite (route_loadable _ _ _ Hl) in H.
+  destruct (the_service W o); exact H.
+Qed.
+
+Lemma first_service_by_default_l : forall W o s r,
+  opt_service o = None -> w_services W = s :: r -> the_service W o = inr s.
+Proof. intros W o s r Ho Hs. unfold the_service. rewrite Hs, Ho. reflexivity. Qed.
+
+Lemma first_port_by_default_l : forall W o s p r,
+  opt_port o = None -> soap_ports W s = p :: r -> the_port W o s None = inr p.
+Proof.
+  intros W o s p r Ho Hs. unfold the_port. rewrite Hs, Ho. rewrite pick_first_l. reflexivity.
+Qed.
+
+(* client.service.n without options: the first service, its first SOAP
+   port, the operation n declared by that port's binding. *)
+Lemma first_service_first_port_by_default_l : forall W o n s r p r',
+  wf W = true -> loadable W = true ->
+  opt_service o = None -> opt_port o = None ->
+  w_services W = s :: r -> soap_ports W s = p :: r' ->
+  sat (declared W o p n) (run W o [Attr n]) = true.
+Proof.
+  intros W o n s r p r' Hwf Hl Hos Hop Hs Hp.
+  pose proof (attribute_access_uses_defaults_l W o n [] Hwf Hl) as H.
+  rewrite (first_service_by_default_l W o s r Hos Hs) in H.
+  unfold attr_level in H. rewrite (first_port_by_default_l W o s p r' Hop Hp) in H.
+  exact H.
+Qed.
